@@ -1,9 +1,13 @@
 ---------------------------- MODULE MCDynBitset ----------------------------
 (* Bounded instance of DynBitset: every bitset of size 0..MaxSize, every operation, every   *)
-(* position / distance 0..size+2, every second operand of size 0..MaxSize.                  *)
-(* `act` is the ghost "last action" record; the configuration uses VIEW View so that the    *)
+(* position / distance 0..size+2, every second operand of size 0..MaxSize.  Bitsets larger   *)
+(* than MaxSize (reached by growth) are generated, printed as edge targets and checked by    *)
+(* the invariants, but not expanded (every action is guarded by InB).                        *)
+(* `act` is the ghost "last action" record; the configuration uses VIEW View so that the     *)
 (* explored state space is bits x iterator (act and the operand it carries do not multiply   *)
-(* the states); EdgeOut still sees every generated transition.                              *)
+(* the states); EdgeOut still sees every generated transition.  `other` stays <<>> here: the *)
+(* operand of a binary operation is an argument (a fresh object in the driver); the          *)
+(* long-lived second object is exercised by the recorded random executions only.             *)
 EXTENDS DynBitset, TLC, Json
 CONSTANTS MaxSize
 VARIABLE act
@@ -50,8 +54,8 @@ DoIterBegin  == NoIter /\ \E k \in {"fwd", "rev"}, c \in 0..1 : IterBegin(k) /\ 
 \* observers are offered with and without live iterator (they must not disturb it)
 DoObserve    == InB /\ \E zq \in {<<48, 49>>, <<45, 88>>} : Const /\ act' = [AP("Observe", zq[1], FALSE, 0) EXCEPT !.q = zq[2]]
 \* ---- operations on the live iterator
-DoIterNext   == \E post \in BOOLEAN : IterNext /\ act' = AP("IterNext", 0, post, 0)
-DoIterPrev   == \E post \in BOOLEAN : IterPrev /\ act' = AP("IterPrev", 0, post, 0)
+DoIterNext   == itk # "none" /\ \E post \in BOOLEAN : IterNext /\ act' = AP("IterNext", 0, post, 0)
+DoIterPrev   == itk # "none" /\ \E post \in BOOLEAN : IterPrev /\ act' = AP("IterPrev", 0, post, 0)
 DoIterDrop   == itk # "none" /\ IterDrop /\ act' = A0("IterDrop")
 
 MCNext == \/ DoAssign \/ DoCtorSize \/ DoSetAll \/ DoResetAll \/ DoFlipAll \/ DoSetBit \/ DoResetBit \/ DoFlipBit
